@@ -291,7 +291,9 @@ impl FromStr for Pinned {
         // Parse the `repo` URL.
         let repo_str = s.split('?').next().ok_or(PinnedParseError::Url)?;
         let repo = Url::from_str(repo_str).map_err(|_| PinnedParseError::Url)?;
-        let s = &s[repo_str.len() + "?".len()..];
+        let s = s
+            .get(repo_str.len() + "?".len()..)
+            .ok_or(PinnedParseError::Reference)?;
 
         // Parse the git reference and commit hash. This can be any of either:
         // - `branch=<branch-name>#<commit-hash>`
